@@ -332,7 +332,9 @@ def r6_loader_no_throw(ctx, prog):
     from rules import c17
     from engine import callgraph
     reach = callgraph.reach(prog, 'SoftHSM::C_Initialize') | {'SoftHSM::C_Initialize'}
-    keep = {q for q in reach if q.split('::')[0] in ('SlotManager', 'Slot', 'Token', 'ObjectStore', 'OSToken', 'ObjectFile', 'File', 'Directory', 'Generation', 'ObjectStoreToken', 'SecureDataManager')}
+    files = {os.path.basename(g['file']) for g in prog.functions.values() if g.get('class') in ('SlotManager', 'Slot', 'Token', 'ObjectStore', 'OSToken', 'ObjectFile', 'File', 'Directory', 'Generation', 'ObjectStoreToken', 'SecureDataManager')}
+    # by file, so that file-local helpers of these classes (free functions) are covered too
+    keep = {g['qname'] for g in prog.functions.values() if os.path.basename(g['file']) in files and g['file'].endswith('.cpp') and (g['qname'] in reach or '::' not in g['qname'])}
     c17.r3_underflow(ctx, prog, rule_id='C16.R6', text='opening a token directory cannot throw on an unsigned wrap: sizes read from token files are guarded before they are subtracted from', floor=1, only=keep)
 
 
